@@ -45,17 +45,18 @@ type c7version struct {
 }
 
 type c7view struct {
-	d       db.DB
-	ver     types.HashHeight
-	model   map[string][]byte // what this view must show (user keys)
-	base    map[string][]byte // state when the view (root of its family) was opened
-	wrote   map[string]bool
-	frozen  bool // has descendants: not written any more (see DESIGN C07)
-	hist    bool // opened on a non-frontier commit
-	later   map[string]bool
-	afterRb bool
-	isRoot  bool
-	name    string
+	d        db.DB
+	ver      types.HashHeight
+	model    map[string][]byte // what this view must show (user keys)
+	base     map[string][]byte // state when the view (root of its family) was opened
+	wrote    map[string]bool
+	frozen   bool // has descendants
+	children []*c7view
+	hist     bool // opened on a non-frontier commit
+	later    map[string]bool
+	afterRb  bool
+	isRoot   bool
+	name     string
 }
 
 func cloneState(m map[string][]byte) map[string][]byte {
@@ -552,7 +553,9 @@ func (m *c7machine) writeView() {
 	c := m.c
 	var cands []*c7view
 	for _, v := range m.views {
-		if !v.frozen {
+		// a view that has descendants is written less often (the node itself never does it); what is written through it
+		// is visible to its descendants - created before or after the write - unless they wrote the key themselves
+		if !v.frozen || c.Weighted("write.parentOfSnapshots", 2, 1) == 1 {
 			cands = append(cands, v)
 		}
 	}
@@ -564,6 +567,11 @@ func (m *c7machine) writeView() {
 	}
 	c.Note("write through %s", v.name)
 	c.Class("write-through-view")
+	if v.frozen {
+		c.Class("write-through-a-view-that-has-snapshots")
+	}
+	before := cloneState(v.model)
+	defer func() { c7propagate(v, before) }()
 	if c.Weighted("write.viaApply", 3, 1) == 1 {
 		p := db.NewPatch()
 		n := c.Int("apply.n", 1, 4)
@@ -640,6 +648,41 @@ func (r *c7replayer) Delete(k []byte) {
 	r.keys = append(r.keys, string(k))
 }
 
+// c7propagate: what changed in parent p since `before` shows through every descendant that did not write the key itself.
+func c7propagate(p *c7view, before map[string][]byte) {
+	if len(p.children) == 0 {
+		return
+	}
+	changed := map[string]bool{}
+	for k, v := range p.model {
+		if o, ok := before[k]; !ok || !bytes.Equal(o, v) {
+			changed[k] = true
+		}
+	}
+	for k := range before {
+		if _, ok := p.model[k]; !ok {
+			changed[k] = true
+		}
+	}
+	if len(changed) == 0 {
+		return
+	}
+	for _, ch := range p.children {
+		chBefore := cloneState(ch.model)
+		for k := range changed {
+			if ch.wrote[k] {
+				continue
+			}
+			if v, ok := p.model[k]; ok {
+				ch.model[k] = v
+			} else {
+				delete(ch.model, k)
+			}
+		}
+		c7propagate(ch, chBefore)
+	}
+}
+
 func (m *c7machine) snapshot() {
 	c := m.c
 	if len(m.views) == 0 {
@@ -652,6 +695,7 @@ func (m *c7machine) snapshot() {
 		later: v.later, afterRb: v.afterRb, name: fmt.Sprintf("v%d=snap(%s)", len(m.views), v.name)}
 	c.Note("snapshot %s", nv.name)
 	c.Class("snapshot")
+	v.children = append(v.children, nv)
 	m.views = append(m.views, nv)
 }
 
